@@ -1385,4 +1385,496 @@ theorem invN_step (v : Variant) (s s' : St) (e : Ev) (hL : InvL s) (hM : InvM s)
           (by simp_all [Pc.inTree]) (by simp_all) (by simp_all)
 
 
+/-! ### D: with the timer read under the lock (`drains`), fiber_sleep never reads a stale ttc -/
+
+/-- the actor has read the timer under the lock and not yet added the count -/
+def Pc.adding : Pc → Bool
+  | .addR .. | .addW .. => true
+  | _ => false
+/-- sleeper inside the wake pass of fiber_sleep, after `ttc` was brought up to date -/
+def Pc.passSl : Pc → Bool
+  | .loopHead r | .removing r | .gotNode r _ | .gotNext r _ _ | .sched r _ | .needNode r _ => r == .sl
+  | _ => false
+
+def InvD (v : Variant) (s : St) : Prop :=
+  (s.fl = [] ∨ ∃ g k, s.fl = [(g, k)] ∧ s.holder = some g ∧ (s.pc g).adding = true ∧ (s.pc g).carry = k) ∧
+  (∀ f, (s.pc f).inCall = true → (s.pc f).adding = true → s.segStart f / v.period ≤ s.ttc + (s.pc f).carry) ∧
+  (∀ f, (s.pc f).passSl = true → s.segStart f / v.period ≤ s.ttc) ∧
+  (∀ f, (s.pc f).inCall = true → s.stale f = false)
+
+theorem invD_init (v : Variant) : InvD v init := by
+  refine ⟨Or.inl rfl, ?_, ?_, ?_⟩ <;> intro f h <;> simp [init, Pc.inCall, Pc.passSl] at h
+
+
+@[simp] theorem afterNext_passSl (r : Role) (y : Nat) : (afterNext r y).passSl = (r == .sl) := by
+  unfold afterNext; split <;> simp [Pc.passSl]
+@[simp] theorem afterNext_adding (r : Role) (y : Nat) : (afterNext r y).adding = false := by
+  unfold afterNext; split <;> simp [Pc.adding]
+
+theorem invD_frame {v : Variant} {s : St} (hI : InvD v s) (s' : St) (g : Nat) (p' : Pc)
+    (e1 : s'.fl = s.fl) (e2 : s.fl ≠ [] → s'.holder = s.holder) (e3 : s'.ttc = s.ttc)
+    (e4 : s'.segStart = s.segStart) (e5 : s'.stale = s.stale) (e6 : s'.pc = upd s.pc g p')
+    (c1 : (s.pc g).adding = true → p'.adding = true ∧ p'.carry = (s.pc g).carry)
+    (c2 : p'.adding = true → (s.pc g).adding = true ∧ p'.carry = (s.pc g).carry)
+    (c3 : p'.passSl = true → (s.pc g).passSl = true)
+    (c4 : p'.inCall = true → (s.pc g).inCall = true) : InvD v s' := by
+  obtain ⟨d1, d2, d3, d4⟩ := hI
+  refine ⟨?_, ?_, ?_, ?_⟩
+  · rw [e1]
+    rcases d1 with h | ⟨g0, k, h1, h2, h3, h4⟩
+    · left; exact h
+    · right
+      refine ⟨g0, k, h1, by rw [e2 (by rw [h1]; simp)]; exact h2, ?_⟩
+      rw [e6]
+      by_cases hg : g0 = g
+      · subst hg; simp only [upd, if_true]
+        have := c1 h3
+        exact ⟨this.1, by rw [this.2]; exact h4⟩
+      · simp only [upd, hg, if_false]; exact ⟨h3, h4⟩
+  · intro f hf ha
+    rw [e4, e3]; rw [e6] at hf ha ⊢
+    by_cases hfg : f = g
+    · subst hfg; simp only [upd, if_true] at hf ha ⊢
+      have := c2 ha
+      rw [this.2]; exact d2 f (c4 hf) this.1
+    · simp only [upd, hfg, if_false] at hf ha ⊢; exact d2 f hf ha
+  · intro f hf
+    rw [e4, e3]; rw [e6] at hf
+    by_cases hfg : f = g
+    · subst hfg; simp only [upd, if_true] at hf; exact d3 f (c3 hf)
+    · simp only [upd, hfg, if_false] at hf; exact d3 f hf
+  · intro f hf
+    rw [e5]; rw [e6] at hf
+    by_cases hfg : f = g
+    · subst hfg; simp only [upd, if_true] at hf; exact d4 f (c4 hf)
+    · simp only [upd, hfg, if_false] at hf; exact d4 f hf
+
+theorem invD_same {v : Variant} {s : St} (hI : InvD v s) (s' : St)
+    (e1 : s'.fl = s.fl) (e2 : s'.holder = s.holder) (e3 : s'.ttc = s.ttc)
+    (e4 : s'.segStart = s.segStart) (e5 : s'.stale = s.stale) (e6 : s'.pc = s.pc) : InvD v s' := by
+  unfold InvD at *; rw [e1, e2, e3, e4, e5, e6]; exact hI
+
+/-- no expirations are in flight unless the lock owner is adding them -/
+theorem fl_nil_of_holder {v : Variant} {s : St} (hL : InvL s) (hI : InvD v s) {g : Nat}
+    (hh : (s.pc g).holds = true) (ha : (s.pc g).adding = false) : s.fl = [] := by
+  rcases hI.1 with h | ⟨g0, k, _, h2, h3, _⟩
+  · exact h
+  · have := hL.1 g hh
+    rw [this] at h2; simp at h2; subst h2; rw [ha] at h3; simp at h3
+
+theorem fl_nil_of_free {v : Variant} {s : St} (hI : InvD v s) (hh : s.holder = none) : s.fl = [] := by
+  rcases hI.1 with h | ⟨g0, k, _, h2, _, _⟩
+  · exact h
+  · rw [hh] at h2; simp at h2
+
+set_option maxHeartbeats 2000000 in
+theorem invD_step (v : Variant) (hd : v.drains = true) (s s' : St) (e : Ev) (hL : InvL s)
+    (hT : InvT v s) (hS : InvS v s) (hI : InvD v s) (h : step v s e = some s') : InvD v s' := by
+  have hI' := hI
+  obtain ⟨d1, d2, d3, d4⟩ := hI'
+  cases e with
+  | callSleep f kind a b t =>
+    simp only [step] at h; split at h <;> simp at h; subst h
+    rename_i hc
+    refine ⟨?_, ?_, ?_, ?_⟩
+    · rcases d1 with h | ⟨g0, k, h1, h2, h3, h4⟩
+      · left; exact h
+      · right
+        refine ⟨g0, k, h1, h2, ?_⟩
+        have : g0 ≠ f := by intro h0; subst h0; simp [hc.1, Pc.adding] at h3
+        simp only [upd, this, if_false]; exact ⟨h3, h4⟩
+    · intro f' hf ha
+      by_cases hfg : f' = f
+      · subst hfg; simp [upd, Pc.adding] at ha
+      · simp only [upd, hfg, if_false] at hf ha ⊢; exact d2 f' hf ha
+    · intro f' hf
+      by_cases hfg : f' = f
+      · subst hfg; simp [upd, Pc.passSl] at hf
+      · simp only [upd, hfg, if_false] at hf ⊢; exact d3 f' hf
+    · intro f' hf
+      by_cases hfg : f' = f
+      · subst hfg; simp [upd]
+      · simp only [upd, hfg, if_false] at hf ⊢; exact d4 f' hf
+  | timerRead g k =>
+    simp only [step] at h; (repeat' split at h) <;> simp at h <;> subst h
+    all_goals (try (exact absurd hd (by assumption)))
+    · -- the timer is read under the lock: nothing else is in flight
+      rename_i hk _ r hpc
+      have hfl := fl_nil_of_holder hL hI (g := g) (by simp [hpc, Pc.holds]) (by simp [hpc, Pc.adding])
+      have hhold := hL.1 g (by simp [hpc, Pc.holds])
+      have hacct := hT.1
+      rw [hfl] at hacct; simp [flSum] at hacct
+      refine ⟨?_, ?_, ?_, ?_⟩
+      · right; exact ⟨g, k, by rw [hfl], hhold, by simp [upd, Pc.adding], by simp [upd, Pc.carry]⟩
+      · intro f hf ha
+        by_cases hfg : f = g
+        · subst hfg
+          simp only [upd, if_true, Pc.carry]
+          have := Nat.div_le_div_right (c := v.period) ((hS f).1 (by simpa [upd, hpc, Pc.inCall] using hf)).2.1
+          omega
+        · simp only [upd, hfg, if_false] at hf ha ⊢; exact d2 f hf ha
+      · intro f hf
+        by_cases hfg : f = g
+        · subst hfg; simp [upd, Pc.passSl] at hf
+        · simp only [upd, hfg, if_false] at hf ⊢; exact d3 f hf
+      · intro f hf
+        by_cases hfg : f = g
+        · subst hfg; exact d4 f (by simpa [upd, hpc, Pc.inCall] using hf)
+        · simp only [upd, hfg, if_false] at hf ⊢; exact d4 f hf
+  | wTtc g x =>
+    simp only [step] at h; (repeat' split at h) <;> simp at h; subst h
+    rename_i _ r k y hpc hx
+    have hhold := hL.1 g (by simp [hpc, Pc.holds])
+    have hy := hT.2.2 g r k y hpc
+    refine ⟨?_, ?_, ?_, ?_⟩
+    · left
+      rcases d1 with h | ⟨g0, k0, h1, h2, h3, h4⟩
+      · rw [h]; simp
+      · rw [hhold] at h2; simp at h2; subst h2
+        simp [hpc, Pc.carry] at h4; subst h4
+        rw [h1]; simp
+    · intro f hf ha
+      by_cases hfg : f = g
+      · subst hfg; simp [upd, Pc.adding] at ha
+      · simp only [upd, hfg, if_false] at hf ha
+        have hh : (s.pc f).holds = true := by
+          revert ha; cases s.pc f <;> simp [Pc.adding, Pc.holds]
+        have := hL.1 f hh
+        rw [hhold] at this; simp at this; exact absurd this.symm hfg
+    · intro f hf
+      by_cases hfg : f = g
+      · subst hfg
+        simp only [upd, if_true, Pc.passSl] at hf
+        have := d2 f (by simpa [hpc, Pc.inCall] using hf) (by simp [hpc, Pc.adding])
+        simp only [hpc, Pc.carry] at this
+        simp only; omega
+      · simp only [upd, hfg, if_false] at hf
+        have hh : (s.pc f).holds = true := by
+          revert hf; cases s.pc f <;> simp [Pc.passSl, Pc.holds]
+        have := hL.1 f hh
+        rw [hhold] at this; simp at this; exact absurd this.symm hfg
+    · intro f hf
+      by_cases hfg : f = g
+      · subst hfg; exact d4 f (by simpa [upd, hpc, Pc.inCall] using hf)
+      · simp only [upd, hfg, if_false] at hf ⊢; exact d4 f hf
+  | rTtc g x b =>
+    simp only [step] at h; (repeat' split at h) <;> simp at h <;> subst h
+    all_goals (try (exact absurd hd (by assumption)))
+    · exact invD_frame hI _ _ _ rfl (fun _ => rfl) rfl rfl rfl rfl
+        (by simp_all [Pc.adding, Pc.carry]) (by simp_all [Pc.adding, Pc.carry]) (by simp_all [Pc.passSl])
+        (by simp_all [Pc.inCall])
+    · exact invD_frame hI _ _ _ rfl (fun _ => rfl) rfl rfl rfl rfl
+        (by simp_all [Pc.adding, Pc.carry]) (by simp_all [Pc.adding, Pc.carry]) (by simp_all [Pc.passSl])
+        (by simp_all [Pc.inCall])
+    · -- fiber_sleep reads ttc after its own wake pass: up to date
+      rename_i hx _ r hpc hc
+      obtain ⟨_, rfl, _, _⟩ := hc
+      have h3 := d3 g (by simp [hpc, Pc.passSl])
+      have h4 := d4 g (by simp [hpc, Pc.inCall])
+      refine ⟨?_, ?_, ?_, ?_⟩
+      · rcases d1 with h | ⟨g0, k, h1, h2, h3', h4'⟩
+        · left; exact h
+        · right
+          refine ⟨g0, k, h1, h2, ?_⟩
+          have : g0 ≠ g := by intro h0; subst h0; simp [hpc, Pc.adding] at h3'
+          simp only [upd, this, if_false]; exact ⟨h3', h4'⟩
+      · intro f hf ha
+        by_cases hfg : f = g
+        · subst hfg; simp [upd, Pc.adding] at ha
+        · simp only [upd, hfg, if_false] at hf ha ⊢; exact d2 f hf ha
+      · intro f hf
+        by_cases hfg : f = g
+        · subst hfg; simp [upd, Pc.passSl] at hf
+        · simp only [upd, hfg, if_false] at hf ⊢; exact d3 f hf
+      · intro f hf
+        by_cases hfg : f = g
+        · subst hfg
+          simp only [upd, if_true, h4, Bool.false_or, decide_eq_false_iff_not, Nat.not_lt]
+          rw [hx]; exact h3
+        · simp only [upd, hfg, if_false] at hf ⊢; exact d4 f hf
+  | resumed f =>
+    simp only [step] at h; split at h <;> simp at h; subst h
+    rename_i hpc hsegs
+    refine ⟨?_, ?_, ?_, ?_⟩
+    · rcases d1 with h | ⟨g0, k, h1, h2, h3, h4⟩
+      · left; exact h
+      · right
+        refine ⟨g0, k, h1, h2, ?_⟩
+        have : g0 ≠ f := by intro h0; subst h0; simp [hpc, Pc.adding] at h3
+        simp only [upd, this, if_false]; exact ⟨h3, h4⟩
+    · intro f' hf ha
+      by_cases hfg : f' = f
+      · subst hfg; simp only [upd, if_true] at ha; split at ha <;> simp [Pc.adding] at ha
+      · simp only [upd, hfg, if_false] at hf ha ⊢; exact d2 f' hf ha
+    · intro f' hf
+      by_cases hfg : f' = f
+      · subst hfg; simp only [upd, if_true] at hf; split at hf <;> simp [Pc.passSl] at hf
+      · simp only [upd, hfg, if_false] at hf ⊢; exact d3 f' hf
+    · intro f' hf
+      by_cases hfg : f' = f
+      · subst hfg; exact d4 f' (by simp [hpc, Pc.inCall])
+      · simp only [upd, hfg, if_false] at hf ⊢; exact d4 f' hf
+  | lockLd g t =>
+    simp only [step] at h; (repeat' split at h) <;> simp at h <;> subst h
+    · rename_i hnone
+      have hfl := fl_nil_of_free hI hnone
+      exact invD_frame hI _ _ _ rfl (fun hc => absurd hfl hc) rfl rfl rfl rfl
+        (by simp_all [Pc.adding, Pc.carry]) (by simp_all [Pc.adding, Pc.carry]) (by simp_all [Pc.passSl])
+        (by simp_all [Pc.inCall])
+    · exact hI
+  | unlockSt g t =>
+    simp only [step] at h; (repeat' split at h) <;> simp at h <;> subst h
+    all_goals
+      rename_i o _ _ _ _ hpc
+      have hfl := fl_nil_of_holder hL hI (g := o) (by simp [hpc, Pc.holds]) (by simp [hpc, Pc.adding])
+      exact invD_frame hI _ _ _ rfl (fun hc => absurd hfl hc) rfl rfl rfl rfl
+        (by simp_all [Pc.adding, Pc.carry]) (by simp_all [Pc.adding, Pc.carry]) (by simp_all [Pc.passSl])
+        (by simp_all [Pc.inCall])
+  | wState g f x =>
+    simp only [step] at h; (repeat' split at h) <;> simp at h <;> subst h
+    · exact invD_frame hI _ _ _ rfl (fun _ => rfl) rfl rfl rfl rfl
+        (by simp_all [Pc.adding, Pc.carry]) (by simp_all [Pc.adding, Pc.carry]) (by simp_all [Pc.passSl])
+        (by simp_all [Pc.inCall])
+    all_goals
+      rename_i hpc hc
+      have hf : s.pc f = .parked := by simp_all
+      have hgf : g ≠ f := by intro h0; subst h0; simp [hf] at hpc
+      -- first the sleeper (parked → woken), then the waker
+      have step1 : InvD v { s with pc := upd s.pc f .woken } :=
+        invD_frame hI _ f .woken rfl (fun _ => rfl) rfl rfl rfl rfl
+          (by simp [hf, Pc.adding]) (by simp [Pc.adding]) (by simp [Pc.passSl]) (by simp [hf, Pc.inCall])
+      refine invD_frame step1 _ g _ rfl (fun _ => rfl) rfl rfl rfl rfl ?_ ?_ ?_ ?_
+      all_goals simp only [upd, hgf, if_false, hpc]
+      all_goals first
+        | (simp; done)
+        | ((try simp only [afterNext_passSl, afterNext_inCall, afterNext_adding]);
+           simp [Pc.adding, Pc.carry, Pc.passSl, Pc.inCall]; done)
+  | rNext g n x =>
+    simp only [step] at h; (repeat' split at h) <;> simp at h <;> subst h
+    · exact hI
+    · exact invD_frame hI _ _ _ rfl (fun _ => rfl) rfl rfl rfl rfl
+        (by simp_all [Pc.adding, Pc.carry]) (by simp_all [Pc.adding, Pc.carry]) (by simp_all [Pc.passSl])
+        (by simp_all [Pc.inCall])
+    all_goals first
+      | (rename_i hpc _ _; refine invD_frame hI _ g _ rfl (fun _ => rfl) rfl rfl rfl rfl ?_ ?_ ?_ ?_ <;> rw [hpc] <;>
+          first
+            | (simp; done)
+            | ((try simp only [afterNext_passSl, afterNext_inCall, afterNext_adding]);
+               simp [Pc.adding, Pc.carry, Pc.passSl, Pc.inCall]; done))
+      | (rename_i hpc _ _ _; refine invD_frame hI _ g _ rfl (fun _ => rfl) rfl rfl rfl rfl ?_ ?_ ?_ ?_ <;> rw [hpc] <;>
+          first
+            | (simp; done)
+            | ((try simp only [afterNext_passSl, afterNext_inCall, afterNext_adding]);
+               simp [Pc.adding, Pc.carry, Pc.passSl, Pc.inCall]; done))
+      | (rename_i hpc _ _ _ _; refine invD_frame hI _ g _ rfl (fun _ => rfl) rfl rfl rfl rfl ?_ ?_ ?_ ?_ <;> rw [hpc] <;>
+          first
+            | (simp; done)
+            | ((try simp only [afterNext_passSl, afterNext_inCall, afterNext_adding]);
+               simp [Pc.adding, Pc.carry, Pc.passSl, Pc.inCall]; done))
+  | staleNext g x =>
+    simp only [step] at h; (repeat' split at h) <;> simp at h <;> subst h
+    all_goals first
+      | (rename_i hpc _ _; refine invD_frame hI _ g _ rfl (fun _ => rfl) rfl rfl rfl rfl ?_ ?_ ?_ ?_ <;> rw [hpc] <;>
+          first
+            | (simp; done)
+            | ((try simp only [afterNext_passSl, afterNext_inCall, afterNext_adding]);
+               simp [Pc.adding, Pc.carry, Pc.passSl, Pc.inCall]; done))
+      | (rename_i hpc _ _ _; refine invD_frame hI _ g _ rfl (fun _ => rfl) rfl rfl rfl rfl ?_ ?_ ?_ ?_ <;> rw [hpc] <;>
+          first
+            | (simp; done)
+            | ((try simp only [afterNext_passSl, afterNext_inCall, afterNext_adding]);
+               simp [Pc.adding, Pc.carry, Pc.passSl, Pc.inCall]; done))
+      | (rename_i hpc _ _ _ _; refine invD_frame hI _ g _ rfl (fun _ => rfl) rfl rfl rfl rfl ?_ ?_ ?_ ?_ <;> rw [hpc] <;>
+          first
+            | (simp; done)
+            | ((try simp only [afterNext_passSl, afterNext_inCall, afterNext_adding]);
+               simp [Pc.adding, Pc.carry, Pc.passSl, Pc.inCall]; done))
+  | _ =>
+    simp only [step] at h <;> (repeat' split at h) <;> simp at h <;> (try subst h)
+    all_goals first
+      | exact hI
+      | exact invD_same hI _ rfl rfl rfl rfl rfl rfl
+      | exact invD_frame hI _ _ _ rfl (fun _ => rfl) rfl rfl rfl rfl
+          (by simp_all [Pc.adding, Pc.carry]) (by simp_all [Pc.adding, Pc.carry]) (by simp_all [Pc.passSl])
+          (by simp_all [Pc.inCall])
+
+
+/-! ### R: what was requested against what the arithmetic guarantees -/
+
+def InvR (s : St) : Prop := ∀ f, (s.pc f).inCall = true → s.ovf f = false → s.req f ≤ s.guar f
+
+theorem invR_init : InvR init := by intro f h; simp [init, Pc.inCall] at h
+
+set_option maxHeartbeats 2000000 in
+theorem invR_step (v : Variant) (s s' : St) (e : Ev) (hI : InvR s) (h : step v s e = some s') :
+    InvR s' := by
+  cases e <;> simp only [step] at h <;> (repeat' split at h) <;> simp at h <;> (try subst h)
+  all_goals (intro f'; have := hI f'; (try simp only [upd, afterNext] at *); grind [Pc.inCall])
+
+/-! ### the arithmetic of `sleep_ms` and of the shims -/
+
+theorem guaranteed_append (v : Variant) (l1 l2 : List (Nat × Nat)) :
+    guaranteed v (l1 ++ l2) = guaranteed v l1 + guaranteed v l2 := by
+  induction l1 with
+  | nil => simp [guaranteed]
+  | cons a l ih => obtain ⟨x, y⟩ := a; simp [guaranteed, ih]; omega
+
+theorem guaranteed_replicate (v : Variant) (q : Nat) (x y : Nat) :
+    guaranteed v (List.replicate q (x, y)) = q * (v.period * ticks v x y) := by
+  induction q with
+  | zero => simp [guaranteed]
+  | succ q ih => simp [List.replicate_succ, guaranteed, ih, Nat.succ_mul]; omega
+
+/-- one fiber_sleep(sec, usec) with 64-bit arithmetic lasts at least sec s + usec µs -/
+theorem seg_ge (v : Variant) (hw : v.widen = true) (hp : 1000 ≤ v.period) (sec usec : Nat) :
+    sec * 1000000 + usec ≤ v.period * ticks v sec usec := by
+  have h1 : 1000 * ticks v sec usec ≤ v.period * ticks v sec usec := Nat.mul_le_mul_right _ hp
+  simp only [ticks, hw, if_true] at h1 ⊢
+  omega
+
+theorem ns_arith (A Q b D E : Nat) (hq : Q ≤ A) (h2 : A - Q + (b / 1000 + 1) ≤ D) (h3 : Q ≤ E) :
+    A + (b + 999) / 1000 ≤ E + D := by omega
+
+/-- F-C09c fixed: every request the C types allow is covered by the fiber_sleep calls made -/
+theorem guaranteed_ge_req (v : Variant) (hw : v.widen = true) (hp : 1000 ≤ v.period)
+    (kind : Kind) (a b : Nat) (hok : argsOk kind a b = true) :
+    reqUs kind a b ≤ guaranteed v (plan v kind a b) := by
+  cases kind with
+  | fs =>
+    simp only [argsOk, Bool.and_eq_true, decide_eq_true_eq] at hok
+    have ha : a % M32 = a := Nat.mod_eq_of_lt hok.1
+    have hb : b % M32 = b := Nat.mod_eq_of_lt hok.2
+    have := seg_ge v hw hp a b
+    simp only [plan, guaranteed, reqUs, ha, hb]; omega
+  | us =>
+    simp only [argsOk, decide_eq_true_eq] at hok
+    have ha : a % M32 = a := Nat.mod_eq_of_lt hok
+    have := seg_ge v hw hp (a / 1000000) (a % 1000000)
+    simp only [plan, guaranteed, reqUs, ha]; omega
+  | sl =>
+    simp only [argsOk, decide_eq_true_eq] at hok
+    have ha : a % M32 = a := Nat.mod_eq_of_lt hok
+    have := seg_ge v hw hp a 0
+    simp only [plan, guaranteed, reqUs, ha]
+    generalize ticks v a 0 = T at *
+    simp only [Nat.add_zero] at *
+    omega
+  | ns =>
+    simp only [plan, hw, if_true, reqUs, guaranteed_append, guaranteed_replicate, guaranteed]
+    have hq : (a - 1) / U32MAX * U32MAX ≤ a - 1 := Nat.div_mul_le_self _ _
+    have h1 := seg_ge v hw hp U32MAX 0
+    have h2 := seg_ge v hw hp (a - (a - 1) / U32MAX * U32MAX) (b / 1000 + 1)
+    have h3 : (a - 1) / U32MAX * (U32MAX * 1000000) ≤ (a - 1) / U32MAX * (v.period * ticks v U32MAX 0) :=
+      Nat.mul_le_mul_left _ (by simpa using h1)
+    rw [← Nat.mul_assoc] at h3
+    generalize ticks v U32MAX 0 = T1 at *
+    generalize ticks v (a - (a - 1) / U32MAX * U32MAX) (b / 1000 + 1) = T2 at *
+    generalize v.period * T1 = C at *
+    generalize v.period * T2 = D at *
+    generalize (a - 1) / U32MAX * C = E at *
+    generalize (a - 1) / U32MAX * U32MAX = Qm at *
+    clear h1 hok
+    simp only [Nat.add_zero]
+    rw [Nat.sub_mul] at h2
+    have hQA : Qm * 1000000 ≤ a * 1000000 := Nat.mul_le_mul_right _ (by omega)
+    exact ns_arith _ _ _ _ _ hQA h2 h3
+
+theorem ns_arith2 (A b X : Nat) (h : A + (b / 1000 + 1) ≤ X) : A + (b + 999) / 1000 ≤ X := by omega
+
+/-- the 32-bit computation of `sleep_ms` does not wrap for this request -/
+def noOvf : Kind → Nat → Nat → Prop
+  | .fs, a, b => a * 1000 + b / 1000 + 1 < M32
+  | .us, _, _ => True
+  | .sl, a, _ => a * 1000 + 1 < M32
+  | .ns, a, b => a < M32 ∧ a * 1000 + (b / 1000 + 1) / 1000 + 1 < M32
+
+theorem ticks_eq (v : Variant) {sec usec : Nat} (h : sec * 1000 + usec / 1000 + 1 < M32) :
+    ticks v sec usec = sec * 1000 + usec / 1000 + 1 := by
+  unfold ticks; split
+  · rfl
+  · exact Nat.mod_eq_of_lt h
+
+theorem seg_ge_small (v : Variant) (hp : 1000 ≤ v.period) {sec usec : Nat}
+    (h : sec * 1000 + usec / 1000 + 1 < M32) : sec * 1000000 + usec ≤ v.period * ticks v sec usec := by
+  have h1 : 1000 * ticks v sec usec ≤ v.period * ticks v sec usec := Nat.mul_le_mul_right _ hp
+  rw [ticks_eq v h] at h1 ⊢
+  generalize v.period * (sec * 1000 + usec / 1000 + 1) = X at *
+  clear h
+  omega
+
+/-- as found (32-bit multiplication, truncated tv_sec): the request is still covered as long as
+    `seconds * 1000 + useconds / 1000 + 1` does not wrap — in particular for every request
+    below 4 290 672 seconds -/
+theorem guaranteed_ge_req_small (v : Variant) (hp : 1000 ≤ v.period) (kind : Kind) (a b : Nat)
+    (hok : argsOk kind a b = true) (hno : noOvf kind a b) :
+    reqUs kind a b ≤ guaranteed v (plan v kind a b) := by
+  by_cases hw : v.widen = true
+  · exact guaranteed_ge_req v hw hp kind a b hok
+  · cases kind with
+    | fs =>
+      simp only [argsOk, Bool.and_eq_true, decide_eq_true_eq] at hok
+      have ha : a % M32 = a := Nat.mod_eq_of_lt hok.1
+      have hb : b % M32 = b := Nat.mod_eq_of_lt hok.2
+      have := seg_ge_small v hp (sec := a) (usec := b) hno
+      simp only [plan, guaranteed, reqUs, ha, hb, Nat.add_zero]; exact this
+    | us =>
+      simp only [argsOk, decide_eq_true_eq] at hok
+      have ha : a % M32 = a := Nat.mod_eq_of_lt hok
+      have hlt : a / 1000000 * 1000 + a % 1000000 / 1000 + 1 < M32 := by
+        unfold M32 at *; omega
+      have := seg_ge_small v hp hlt
+      simp only [plan, guaranteed, reqUs, ha, Nat.add_zero]
+      have h2 := Nat.div_add_mod a 1000000
+      generalize v.period * ticks v (a / 1000000) (a % 1000000) = X at *
+      clear hlt hok ha
+      omega
+    | sl =>
+      simp only [argsOk, decide_eq_true_eq] at hok
+      have ha : a % M32 = a := Nat.mod_eq_of_lt hok
+      have hlt : a * 1000 + 0 / 1000 + 1 < M32 := by
+        have h0 : a * 1000 + 1 < M32 := hno
+        rw [Nat.zero_div, Nat.add_zero]; exact h0
+      have := seg_ge_small v hp (sec := a) (usec := 0) hlt
+      simp only [plan, guaranteed, reqUs, ha, Nat.add_zero] at this ⊢; exact this
+    | ns =>
+      obtain ⟨h1, h2⟩ := hno
+      simp only [argsOk, decide_eq_true_eq] at hok
+      have ha : a % M32 = a := Nat.mod_eq_of_lt h1
+      have hb : (b / 1000 + 1) % M32 = b / 1000 + 1 := Nat.mod_eq_of_lt (by unfold M32; omega)
+      have := seg_ge_small v hp h2
+      simp only [plan, hw, reqUs, ha, hb]
+      exact ns_arith2 _ _ _ this
+
+
+/-! ### all invariants together, along every accepted trace -/
+
+structure AllInv (v : Variant) (s : St) : Prop where
+  L : InvL s
+  T : InvT v s
+  M : InvM s
+  S : InvS v s
+  N : InvN v s
+  C : InvC s
+  R : InvR s
+
+theorem allInv_init (v : Variant) : AllInv v init :=
+  ⟨invL_init, invT_init v, invM_init, invS_init v, invN_init v, invC_init, invR_init⟩
+
+theorem allInv_step (v : Variant) (hP : 0 < v.period) (s e s') (hI : AllInv v s)
+    (h : step v s e = some s') : AllInv v s' :=
+  ⟨invL_step v s s' e hI.L h, invT_step v s s' e hI.L hI.T h, invM_step v s s' e hI.L hI.M h,
+   invS_step v hP s s' e hI.T hI.M hI.S h, invN_step v s s' e hI.L hI.M hI.N h,
+   invC_step v s s' e hI.C h, invR_step v s s' e hI.R h⟩
+
+theorem allInv_of_run (v : Variant) (hP : 0 < v.period) {es : List Ev} {s : St}
+    (h : (sys v).run es = some s) : AllInv v s :=
+  Sys.inv_of_run (sys v) (AllInv v) (allInv_init v) (fun s e s' hI hs => allInv_step v hP s e s' hI hs) h
+
+theorem invD_of_run (v : Variant) (hP : 0 < v.period) (hd : v.drains = true) {es : List Ev} {s : St}
+    (h : (sys v).run es = some s) : InvD v s := by
+  have := Sys.inv_of_run (sys v) (fun s => AllInv v s ∧ InvD v s) ⟨allInv_init v, invD_init v⟩
+    (fun s e s' hI hs => ⟨allInv_step v hP s e s' hI.1 hs,
+      invD_step v hd s s' e hI.1.L hI.1.T hI.1.S hI.2 hs⟩) h
+  exact this.2
+
 end LibfiberVerif.Sleep
